@@ -128,7 +128,69 @@ package turbotunnel
 //@ func (c *QueuePacketConn) closeWithError(err error) (r error)
 //@   props C17
 //@   flag nosafety
-//@   requires c != nil && c.closed != nil && (oncedone(&c.closeOnce) <==> closed(c.closed))
+//@   requires c != nil
+//@   assumes c.closed != nil && (oncedone(&c.closeOnce) <==> closed(c.closed))
+//@   ensures {closed-afterwards} closed(c.closed) && oncedone(&c.closeOnce)
+//@   ensures {closes-at-most-once} closes(c.closed) == old(closes(c.closed)) + ite(old(closed(c.closed)), 0, 1)
+//@   ensures {second-close-reports-an-error} old(closed(c.closed)) ==> r != nil
+//@   ensures {first-close-succeeds} !old(closed(c.closed)) ==> r == nil
+//
+// RedialPacketConn.
+//@ ghost var dials int
+//
+// dialLoop: one carrier at a time; every carrier it obtained is closed before the next dial and before returning;
+// a dial error closes the connection with that error.
+//@ func (c *RedialPacketConn) dialLoop()
+//@   props C17
+//@   flag nosafety closeonly=closed
+//@   requires c != nil
+//@   at entry ghost dials = 0
+//@   after call dialContext ghost dials = dials + ite(ret1 == nil, 1, 0)
+//@   loop 1 invariant {every-obtained-carrier-closed} calls(Close) == dials && calls(exchange) == dials
+//@   at call closeWithError assert {dial-error-closes-with-that-error} arg1 != nil
+//@   ensures {every-obtained-carrier-closed} calls(Close) == dials && calls(exchange) == dials
+//
+// exchange and its two pumps (B1: no pump can be parked forever on its error report).
+//@ func (c *RedialPacketConn) exchange(conn net.PacketConn)
+//@   props C17
+//@   flag concurrent nosafety paired-select=exchange$1,exchange$2
+//@   requires c != nil
+//
+//@ func (c *RedialPacketConn) exchange$1()
+//@   props C17
+//@   flag concurrent nosafety closeonly=closed
+//@   requires {error-report-cannot-block} chancap(readErrCh) >= 1 && sends(readErrCh) == 0 && !closed(readErrCh) && readErrCh != nil
+//@   loop 1 invariant sends(readErrCh) == 0 && !closed(readErrCh) && chancap(readErrCh) >= 1
+//@   at call send assert {received-packets-are-private-copies} ch == readErrCh || fresh(value)
+//@   ensures {closes-its-error-channel-on-every-path} closed(readErrCh)
+//
+//@ func (c *RedialPacketConn) exchange$2()
+//@   props C17
+//@   flag concurrent nosafety closeonly=closed lifetime=closed
+//@   requires {error-report-cannot-block} chancap(writeErrCh) >= 1 && sends(writeErrCh) == 0 && !closed(writeErrCh) && writeErrCh != nil
+//@   loop 1 invariant sends(writeErrCh) == 0 && !closed(writeErrCh) && chancap(writeErrCh) >= 1
+//@   ensures {closes-its-error-channel-on-every-path} closed(writeErrCh)
+//
+//@ func (c *RedialPacketConn) ReadFrom(p []byte) (n int, a net.Addr, err error)
+//@   props C17
+//@   flag concurrent closeonly=closed lifetime=closed nosafety
+//@   requires c != nil && c.closed != nil && c.recvQueue != nil
+//@   ensures {fails-after-close} old(closed(c.closed)) ==> err != nil && n == 0
+//@   ensures {error-only-after-close-or-dial-failure} err != nil ==> closed(c.closed)
+//
+//@ func (c *RedialPacketConn) WriteTo(p []byte, addr net.Addr) (n int, err error)
+//@   props C17
+//@   flag concurrent closeonly=closed nosafety
+//@   requires c != nil && c.closed != nil
+//@   at call send assert {enqueues-a-private-copy} ch == c.sendQueue && fresh(value) && len(value) == len(p) && (forall k int :: 0 <= k && k < len(p) ==> value[k] == p[k])
+//@   ensures {fails-after-close} old(closed(c.closed)) ==> err != nil && sends(c.sendQueue) == old(sends(c.sendQueue))
+//@   ensures {error-only-after-close-or-dial-failure} err != nil ==> closed(c.closed)
+//
+//@ func (c *RedialPacketConn) closeWithError(err error) (r error)
+//@   props C17
+//@   flag nosafety
+//@   requires c != nil
+//@   assumes c.closed != nil && (oncedone(&c.closeOnce) <==> closed(c.closed))
 //@   ensures {closed-afterwards} closed(c.closed) && oncedone(&c.closeOnce)
 //@   ensures {closes-at-most-once} closes(c.closed) == old(closes(c.closed)) + ite(old(closed(c.closed)), 0, 1)
 //@   ensures {second-close-reports-an-error} old(closed(c.closed)) ==> r != nil
